@@ -44,6 +44,7 @@ MonInit(P) ==
    staleTD |-> {},
    lastEv |-> "", lastT |-> 0, lastO |-> NONE, lastReqEnd |-> [t |-> 0, o |-> NONE],
    fault |-> {}, boom |-> <<0, 0>>,
+   blog |-> <<>>,                            \* the events of the 10 kinds EventTracker records, since the last build_start
    cnt |-> [p \in {"C01","C02","C03","C04","C05","C06","C07","C08","C09","C15","C17","C18","C19","C20"} |-> 0]]
 
 Bump(m, p) == [m EXCEPT !.cnt[p] = @ + 1]
@@ -412,7 +413,7 @@ OnExecStart(P, m, st, e) ==
       vIdem == IF ~isBU /\ m.clean /\ m.curRoot \in m.prevRoots /\ ~m.aborted /\ m.fault = {} /\ P.fam \in WFFams
                THEN {<<"C02", "not_idempotent">>} ELSE {}
       \* C03: a probe after a complete bottom-up build executes nothing (K1: stale after top-down-then-bottom-up)
-      probeExec == m.probe /\ m.buOk /\ ~isBU /\ P.fam \in WFFams
+      probeExec == m.probe /\ m.buOk /\ ~isBU /\ P.fam \in WFFams /\ m.fault = {}
       v03 == IF probeExec /\ t \notin m.staleTD THEN {<<"C03", "stale_after_bottom_up">>} ELSE {}
       k03 == IF probeExec /\ t \in m.staleTD THEN {<<"C03", "K1_stale_requirer_after_top_down">>} ELSE {}
       m1 == [m EXCEPT !.execd[t] = @ + 1, !.bexecd = @ \cup {t},
@@ -513,6 +514,40 @@ OnSchedule(P, m, st, e) ==
   R(m, V(m.chkFresh /\ m.lastChk.t = e.t /\ m.lastChk.bad,
          <<IF P.fam \in WFFams /\ ~m.aborted THEN "C04" ELSE "", "scheduled_without_inconsistent_dependency">>))
 
+\* ---- the recording tracker (C17-5): stored events, indices and query helpers agree with the stream ----------------------
+RecordedKinds == {"build_start", "build_end", "require_start", "require_end", "read_start", "read_end", "write_start",
+                  "write_end", "exec_start", "exec_end"}
+B01(x) == IF x THEN 1 ELSE 0
+FirstIdx(evs, k, x) == LET I == {i \in DOMAIN evs : evs[i].k = k /\ evs[i].x = x} IN
+                       IF I = {} THEN -1 ELSE (CHOOSE i \in I : \A j \in I : i <= j) - 1
+RangeOf(evs, k1, k2, x) == IF FirstIdx(evs, k1, x) = -1 \/ FirstIdx(evs, k2, x) = -1 THEN <<-1, -1>>
+                           ELSE <<FirstIdx(evs, k1, x), FirstIdx(evs, k2, x)>>
+EventTrackerViol(P, m, evt) ==
+  LET evs == evt.evs
+      slice == Len(evs) = Len(m.blog)
+               /\ \A i \in DOMAIN evs : evs[i].k = m.blog[i].k /\ evs[i].x = m.blog[i].x /\ evs[i].i = i - 1
+      helpers == \A i \in DOMAIN evs : LET ev == evs[i] IN
+        /\ ev.h = <<B01(ev.k = "build_start"), B01(ev.k = "build_end"), B01(ev.k \in {"exec_start", "exec_end"})>>
+        /\ \A t \in 1..P.nt : ev.mt[t] = <<B01(ev.k = "require_start" /\ ev.x = t), B01(ev.k = "require_end" /\ ev.x = t),
+                                             B01(ev.k \in {"exec_start", "exec_end"} /\ ev.x = t),
+                                             B01(ev.k = "exec_start" /\ ev.x = t), B01(ev.k = "exec_end" /\ ev.x = t)>>
+        /\ \A r \in 1..P.nr : ev.mr[r] = <<B01(ev.k = "read_start" /\ ev.x = r), B01(ev.k = "read_end" /\ ev.x = r),
+                                             B01(ev.k = "write_start" /\ ev.x = r), B01(ev.k = "write_end" /\ ev.x = r)>>
+      queries ==
+        /\ evt.any_execute = B01(\E i \in DOMAIN evs : evs[i].k \in {"exec_start", "exec_end"})
+        /\ \A t \in 1..P.nt : LET q == evt.qt[t] IN
+             /\ q.any = B01(\E i \in DOMAIN evs : evs[i].k \in {"exec_start", "exec_end"} /\ evs[i].x = t)
+             /\ q.one = B01(Cardinality({i \in DOMAIN evs : evs[i].k = "exec_start" /\ evs[i].x = t}) = 1)
+             /\ q.req = RangeOf(evs, "require_start", "require_end", t)
+             /\ q.exe = RangeOf(evs, "exec_start", "exec_end", t)
+             /\ q.exe_end = FirstIdx(evs, "exec_end", t)
+        /\ \A r \in 1..P.nr : LET q == evt.qr[r] IN
+             /\ q.rd = RangeOf(evs, "read_start", "read_end", r) /\ q.rd_end = FirstIdx(evs, "read_end", r)
+             /\ q.wr = RangeOf(evs, "write_start", "write_end", r) /\ q.wr_end = FirstIdx(evs, "write_end", r)
+  IN V(slice, <<"C17", "recorded_events_differ_from_stream">>)
+     \cup V(helpers, <<"C17", "event_helper_answers">>)
+     \cup V(queries, <<"C17", "tracker_query_answers">>)
+
 \* ---- session end -----------------------------------------------------------------------------------------------
 DumpDeps(td) == {[k |-> d.k, x |-> d.x, c |-> d.c, s |-> d.s] : d \in Range(td.deps)}
 
@@ -537,7 +572,8 @@ OnSessEnd(P, m, st, e) ==
                       !.clean = m.sessOk /\ m.errsExp = 0, !.vstk = <<>>, !.nstk = <<>>, !.build = "none",
                       !.probe = FALSE,
                       !.buOk = IF m.probe THEN FALSE ELSE @]
-  IN RK(Bump(Bump(m1, "C08"), "C18"), vRes \cup vErr \cup vTrk \cup v08 \cup v06 \cup vOut, k08)
+      vEvt == IF "evt" \in DOMAIN e THEN EventTrackerViol(P, m, e.evt) ELSE {}
+  IN RK(Bump(Bump(m1, "C08"), "C18"), vRes \cup vErr \cup vTrk \cup v08 \cup v06 \cup vOut \cup vEvt, k08)
 
 OnExt(P, m, st, e) ==
   CASE e.ev = "ext_set" -> R([m EXCEPT !.clean = FALSE, !.changed = @ \cup {e.r}, !.buOk = FALSE], {})
@@ -598,7 +634,9 @@ MonStep(P, m0, st, e) ==
       m3 == [d.m EXCEPT !.lastEv = e.ev,
                         !.lastT = IF e.ev \in {"exec_start", "task_exit", "task_enter", "exec_end"} THEN e.t ELSE @,
                         !.lastO = IF e.ev \in {"task_exit", "exec_end"} THEN e.o ELSE @,
-                        !.chkFresh = IF e.ev \in {"chk_read_end", "chk_req_end"} THEN @ ELSE FALSE]
+                        !.chkFresh = IF e.ev \in {"chk_read_end", "chk_req_end"} THEN @ ELSE FALSE,
+                        !.blog = IF e.ev \in RecordedKinds
+                                 THEN Append(IF e.ev = "build_start" THEN <<>> ELSE @, [k |-> e.ev, x |-> Subj(e)]) ELSE @]
       allv == pre.v \cup nst.v \cup d.v
   IN [m |-> m3, v |-> {t \in allv : t[1] # ""}, k |-> {t \in d.k : t[1] # ""}, st |-> st2]
 =============================================================================
